@@ -53,7 +53,7 @@ def run(ctx):
             ctx.report(classify(e, f["mon"]), {"driver": "h-aux c37 " + " ".join(map(str, args)), "event": e})
     ctx.distinct += len(seen)
     for k, v in stats.items():
-        if v == 0:
+        if v == 0 and not ctx.violations:        # a vacuity complaint must not hide reported violations
             raise vlib.ToolError("vacuity: no event of class %s" % k)
     ctx.assumptions += [
         "the store's close_gt_exchange and the token program's transfer_checked are mocked (answer Ok, recorded); "
